@@ -218,6 +218,9 @@ class FnTranslator:
                     if base in env.dropped or base in self.assigned:
                         raise Untranslatable(f'{base}[{k}]: {base} is assigned outside the integer skeleton')
                     return self.param(env, f'{base}_{"m" if k < 0 else ""}{abs(k)}')
+            if base is not None and isinstance(idx, ast.Name) and base in self.free and idx.id in self.free:
+                # a[k] with both the container and the index declared free (values the function receives): one opaque integer
+                return self.param(env, f'{base}_{idx.id}')
             raise Untranslatable('subscript ' + ast.unparse(node))
         if isinstance(node, ast.BinOp):
             if isinstance(node.op, ast.Div):
@@ -534,6 +537,9 @@ class FnTranslator:
             cond = self.test(s.test, env)
         except Untranslatable:
             cond = None
+        if cond in ('True', 'False'):       # decided by a per-item assumption: only the taken branch exists
+            self.simple_block(s.body if cond == 'True' else s.orelse, env, lets)
+            return
         e1, e2 = env.copy(), env.copy()
         l1, l2 = [], []
         self.simple_block(s.body, e1, l1)
